@@ -31,8 +31,8 @@ PLAN = {
             ["C02"], "a rule whose condition was false in the previous cycle is evaluated again after an action made it true"),
     "C03": ([("salience", 600, ["-reps", "3"]), ("core", 150, []), ("control", 100, []), ("fault", 250, ["-flagp", "0.2", "-reps", "3"])],
             ["C03"], "a rule fired in a cycle whose recomputed conflict set held candidates of different salience"),
-    "C06": ([("budget", 500, ["-listeners", "3", "-maxcycle", "5"]), ("control", 150, ["-listeners", "2"]),
-             ("fault", 100, ["-flagp", "0.5"]), ("budget", 12, ["-cancel", "-maxcycle", "4"])],
+    "C06": ([("budget", 500, ["-listeners", "3", "-maxcycle", "5", "-shadow", "0.5"]), ("control", 150, ["-listeners", "2", "-shadow", "0.5"]),
+             ("fault", 100, ["-flagp", "0.5", "-shadow", "0.5"]), ("budget", 12, ["-cancel", "-maxcycle", "4"])],
             ["C06", "C06q"], "a run that exhausted its cycle budget, or reached quiescence after at least one firing"),
     "C08": ([("reuse", 1, []), ("control", 300, ["-calls", "3", "-mode", "mixed", "-variants", "fresh,reloaded"]),
              ("fault", 200, ["-calls", "3", "-mode", "mixed", "-flagp", "0.3"]),
@@ -62,6 +62,8 @@ EXPORTED = {
 }
 MODEL = {"quick": ("MCEngine.tla", "MCEngineQuick.cfg"), "thorough": ("MCEngine.tla", "MCEngine.cfg")}
 THOROUGH_FACTOR = 12
+SESSION_MODEL = "MCEngineSession.cfg"   # several calls (Execute / Fetch) on one instance
+SESSION_PROPS = ("C08", "C11")
 FOCUS = ["none"]     # the property whose check is running: names the flag when several checks of one event fail
 
 
@@ -257,12 +259,16 @@ def evaluate(prop, batches, marks, rule, thorough_factor=None):
     with cf.ThreadPoolExecutor(max_workers=6) as ex:
         mtla, mcfg = MODEL[tier]
         fm = ex.submit(tlc, None, mtla, mcfg, os.path.join(scratch(), "model"), "8", 3000, heap="8g")
+        fs = ex.submit(tlc, None, mtla, SESSION_MODEL, os.path.join(scratch(), "model-session"), "4", 3000, heap="6g") if prop in SESSION_PROPS else None
         futs = [ex.submit(run_batch, gh, *j) for j in jobs]
         for f in futs:
             results.append(f.result())
         model = fm.result()
+        session = fs.result() if fs else None
     if not model["ok"]:
         tlc_failed(model, "exhaustive model " + MODEL[tier][1])
+    if session is not None and not session["ok"]:
+        tlc_failed(session, "exhaustive model " + SESSION_MODEL)
     # gather
     traces = events = 0
     mark_counts = {}
@@ -326,7 +332,9 @@ def evaluate(prop, batches, marks, rule, thorough_factor=None):
     cov = {
         "states": model["distinct"] + sum(b["extra_model"]["distinct"] for b in results if b.get("extra_model")),
         "transitions": model["generated"] + sum(b["extra_model"]["generated"] for b in results if b.get("extra_model")),
-        "model": "%s / %s: exhaustive, no invariant or action property violated" % MODEL[tier],
+        "model": "%s / %s: exhaustive, no invariant or action property violated" % MODEL[tier]
+                 + ("; %s (sessions of 3 calls Execute / Fetch on one instance, FreshAtStart, FetchExact, FetchPure): %d distinct states"
+                    % (SESSION_MODEL, session["distinct"]) if session else ""),
         "traces_validated_against_impl": traces, "trace_events": events,
         "monitor_states": sum(b["tlc"]["distinct"] for b in results),
         "evaluations": traces, "distinct_nontrivial": own_marks,
